@@ -242,7 +242,7 @@ func checkC09(e *Engine, r *Report) {
 		for _, c := range e.callsTo(dismiss, updGroups) {
 			a := callArgs(c)
 			if len(a) == 3 && isConstInt(a[2], -1) {
-				okDelta = true
+				okDelta = e.skippedOnSuccess(dismiss, c.(ssa.Instruction)) == nil // on every path, not only on some
 			}
 		}
 		r.Check("R1:bl-dismiss->groups-1", "R1 release pairing", "dismissContainer decrements the balloon's group count", e.Pos(dismiss.Pos()), dismiss, okDelta, "", true)
